@@ -36,13 +36,22 @@ def synthetic_kernel_inputs(seed):
     g = np.random.Generator(np.random.PCG64(core.H(seed, "kernel")))
     t, k = int(g.integers(1, 40)), int(g.integers(1, 6))
     cost = np.round(g.normal(0, 3, size=(t, k)), int(g.integers(0, 3)))      # rounding creates ties
-    if g.random() < 0.3:
+    u = g.random()
+    if u < 0.25:
         cost = np.asfortranarray(cost)
+    elif u < 0.4:
+        big = np.zeros((2 * t, 2 * k))
+        big[::2, ::2] = cost
+        cost = big[::2, ::2]                      # non-contiguous view
+    elif u < 0.55:
+        cost = cost.astype(np.float32)            # another dtype (values already rounded: exactly representable)
     beta = float(g.choice([0.0, 0.5, 2.0, 7.0])) if g.random() < 0.5 else np.round(g.uniform(0, 4, size=t), 1)
     n, w = int(g.integers(1, 3)), int(g.integers(1, 4))
     nw = n * w
     kk = int(g.integers(1, 4))
     pts = g.normal(0, 2, size=(int(g.integers(1, 30)), nw))
+    if g.random() < 0.25:
+        pts = np.asfortranarray(pts)
     mus = g.normal(0, 1, size=(kk, nw))
     thetas = []
     for _ in range(kk):
